@@ -1,3 +1,4 @@
+import HranoModel.Lemmas.Template
 import HranoModel.Lemmas.Fixed
 import HranoModel.Lemmas.Walk
 import HranoModel.Lemmas.PrintDoc
@@ -212,5 +213,20 @@ example : App.walk [.year4, .lit 47, .month2, .lit 47, .day2] none none none
   decide +kernel
 example : fmtFixed 2 ((3 : Q) / 8) = [48, 46, 51, 56] := by decide +kernel        -- 0.375 → 0.38
 example : fmtFixed 2 (printedValue 2 ((3 : Q) / 8)) = [48, 46, 51, 56] := by decide +kernel
+
+/-! ### the byte layout follows the formats read from the source on every run (`tools/facts`, `Model/Template.lean`) -/
+
+/-- The text `print` writes for a day is the four formats of `print_reporter.go`, as the source has them now: heading, named note, plain note, element. -/
+theorem print_layout_follows_source (cfg : RCfg) (d : LogDay) :
+    renderPrint cfg d =
+      Tmpl.sprintfA (Facts.printFormats.getD 0 []) [.s (Date.format cfg.dateLayout d.date)]
+      ++ (d.notes.map (fun m =>
+            if !m.name.isEmpty then Tmpl.sprintfA (Facts.printFormats.getD 1 []) [.s m.name, .s m.value]
+            else Tmpl.sprintfA (Facts.printFormats.getD 2 []) [.s m.value])).flatten
+      ++ (d.elements.map (fun e => Tmpl.sprintfA (Facts.printFormats.getD 3 []) [.s e.name, .q e.value])).flatten
+      ++ [10] := by
+  simp only [renderPrint, Tmpl.row_p0, Tmpl.row_p1, Tmpl.row_p2, Tmpl.row_p3, Tmpl.print_precision, List.append_assoc]
+
+example : Tmpl.sprintfA (Facts.printFormats.getD 3 []) [.s [97, 98], .q (7/4)] = Bytes.ofString "  - ab: 1.75\n" := by decide +kernel
 
 end Hrano.C14
